@@ -124,7 +124,7 @@ PROPS = {
         "theorems": [
             "BPT.Props.C02.demo_state", "BPT.Props.C02.step_sinv", "BPT.Props.C02.reachable_sinv", "BPT.Props.C02.new_sinv",
             "BPT.Props.C02.items_eq_abs", "BPT.Props.C02.items_strictly_ascending",
-            "BPT.Props.C02.keys_eq", "BPT.Props.C02.values_eq", "BPT.Props.C02.first_eq", "BPT.Props.C02.last_eq",
+            "BPT.Props.C02.keys_eq", "BPT.Props.C02.values_eq", "BPT.Props.C02.first_eq", "BPT.Props.C02.first_last_extremes", "BPT.Props.C02.last_eq",
             "BPT.Props.C02.items_pair_current", "BPT.Props.C02.exhausted_stays_none", "BPT.Props.C02.none_means_exhausted",
             "BPT.Props.C02.iterators_independent", "BPT.Props.C02.items_fast_eq_abs",
             "BPT.Rust.fastNext_pos", "BPT.Rust.fastDrain_pos", "BPT.Rust.view_itemsFast",
